@@ -320,3 +320,15 @@ def globalIndices : List Nat → List Sel → Nat → List Nat
 def closeEntry (t a b : Rat) : Bool := absR (a - b) ≤ t + t * absR b
 
 end GV.C16
+
+namespace GV.C16
+
+/-- `DisciplineJacApprox.check_jacobian(indices=…)` on flat Jacobians (lists of rows): every
+    selected entry of the analytic Jacobian is close to the approximated one. The code iterates over
+    (output name, input name) blocks with local indices; globally this is the product of the
+    selected rows and columns. -/
+def checkJac (t : Rat) (analytic approx : List Vec) (rows cols : List Nat) : Bool :=
+  rows.all (fun r => cols.all (fun c =>
+    closeEntry t (getR (analytic.getD r []) c) (getR (approx.getD r []) c)))
+
+end GV.C16
